@@ -550,7 +550,7 @@ K32 = ("bool", "int32", "sint32", "sfixed32", "uint32", "fixed32", "float", "enu
 
 def check_C13(ctx):
     return run_leaf_property(ctx, dict(
-        theorems=["C13_writer", "C13_nest_message", "C13_nest_always", "C13_nest_present", "C13_reader_other", "C13_reader_wrong_wire", "C13_reader_value", "C13_reader_next", "C13_reader_any_input", "C13_repeated_reader_iteration", "C13_packed_is_reference_unpack", "C13_encoder_programs", "C13_absent_message_no_trace"],
+        theorems=["C13_writer", "C13_nest_message", "C13_nest_always", "C13_nest_present", "C13_reader_other", "C13_reader_wrong_wire", "C13_reader_value", "C13_reader_next", "C13_reader_any_input", "C13_repeated_reader_iteration", "C13_packed_is_reference_unpack", "C13_encoder_programs", "C13_absent_message_no_trace", "C13_repeated_reader_appends"],
         suites=lambda c: [("writers", ["writers", c.seed] + (["thorough"] if c.tier == "thorough" else [])), ("readers", ["readers", c.seed, _n(c, 1500, 20000)]),
                           ("eprogs", ["eprogs", c.seed, _n(c, 4000, 60000)])],
         rule="programs of Encoder calls (typed writers, RepeatedEnum, UnrecognizedFields, Message/AlwaysMessage/PresentMessage/AlwaysAnyBytes nested to depth 3, callbacks that write and "
@@ -562,7 +562,7 @@ def check_C13(ctx):
 
 def check_C15(ctx):
     spec = dict(
-        theorems=["C15_enc", "C15_enc_element", "C15_dec", "C15_dec_element"],
+        theorems=["C15_enc", "C15_enc_element", "C15_dec", "C15_dec_element", "C15_repeated_keeps_earlier"],
         suites=lambda c: [("writers", ["writers", c.seed] + (["thorough"] if c.tier == "thorough" else [])), ("readers", ["readers", c.seed, _n(c, 1500, 20000)])] +
                          ([("sweep32", ["sweep32", c.seed])] if c.tier == "thorough" else []),
         filter=lambda r: r["suite"] == "sweep32" or r["cols"][0] in K32,
